@@ -9,6 +9,8 @@ Open Scope N_scope.
 Inductive case :=
 | COne (r : row) (m : N)
   (* a real datagram with the features of r was handed to the real readOutsidePackets: it did m *)
+| CShort (m : N)
+  (* a datagram shorter than a header did m *)
 | CNet (outer : row) (inner : option row) (roaming : bool) (m : N).
   (* a datagram derived from real traffic. outer: its features; inner: the features of the payload when the datagram
      is a relay packet on a terminal record; roaming: its source differs from the tunnel's current remote *)
@@ -36,11 +38,11 @@ Definition net_model_ok (outer : row) (inner : option row) (roaming : bool) (m :
   | None => false
   | Some t =>
       let t := if roaming then t else clear e_roam t in
-      let inner_acts := match inner with Some i => authfresh i && has e_unwrap match read_outside outer with Some x => x | None => 0 end | None => false end in
+      let inner_acts := match inner with Some i => authfresh i && has e_unwrap match read_fast outer with Some x => x | None => 0 end | None => false end in
       if authfresh outer && negb (is_hs outer) then
         subset m (N.lor t (mask_of [e_live])) && (has e_close t || Bool.eqb (has e_win m) (has e_win t))
         && (inner_acts || negb (is_relay_pkt outer) || Bool.eqb (has e_fwd m) (has e_fwd t))
-      else if is_hs outer then subset m (N.lor t m_hs)
+      else if is_hs outer then subset m (mask_of [e_hs; e_live; e_close])
       else m =? t
   end.
 
@@ -48,7 +50,8 @@ Definition check_case (c : case) : list N :=
   match c with
   | COne r m =>
       (* code 2: the documented rule (effect => authentic and fresh; only an authenticated close closes), NOT the table *)
-      flag 2 (spec_ok r m) ++ flag 1 (opt_eqb (read_outside r) (Some m))
+      flag 2 (spec_ok r m) ++ flag 1 (opt_eqb (read_fast r) (Some m))
+  | CShort m => flag 2 (m =? 0) ++ flag 1 (m =? tab_short)
   | CNet outer inner roaming m =>
       flag 2 (net_spec outer inner m) ++ flag 1 (net_model_ok outer inner roaming m)
   end.
